@@ -22,6 +22,26 @@ def untok(s):
     return "" if s == "_" else s
 
 
+# Ip devices (IpLocalDevice / IpRemoteDevice, the classes UdpStack and TcpServerStack use): an address is a
+# (host, port) duple; on the wire it is the token <host code><port>
+HOSTS = {"e": "", "z": "0.0.0.0", "l": "localhost", "L": "LOCALHOST", "n": "127.0.0.1", "c": "::", "o": "::1",
+         "t": "10.0.0.5", "f": "0:0:0:0:0:0:0:0"}
+CODES = {v: k for k, v in HOSTS.items()}
+IP_PORT = 12357          # RemoteStack has no .Port; the IP stacks have Port = 12357
+
+
+def tok_ip(ha):
+    try:
+        host, port = ha
+        return CODES[host] + str(port)
+    except Exception:
+        return "?" + repr(ha).replace(" ", "")
+
+
+def untok_ip(s):
+    return (HOSTS[s[0]], int(s[1:]))
+
+
 def sep(l, c=","):
     l = list(l)
     return c.join(l) if l else "-"
@@ -38,19 +58,28 @@ class BadOp(Exception):
 def run_impl(case):
     from ioflo.aio.proto import stacking, devicing
     p, u, n, h = case["init"]
-    stack = stacking.RemoteStack(puid=int(p), uid=opt(u, int), name=opt(n, untok), ha=opt(h, untok))
+    ip = bool(case.get("ip"))
+    if ip:
+        # as UdpStack/TcpServerStack do: the local device is an IpLocalDevice (no socket is opened: no handler)
+        stack = stacking.RemoteStack(puid=int(p), uid=opt(u, int))
+        stack.Port = IP_PORT
+        stack.local = devicing.IpLocalDevice(stack=stack, uid=stack.local.uid, name=opt(n, untok), ha=opt(h, untok_ip))
+        Remote, hatok, haun = devicing.IpRemoteDevice, tok_ip, untok_ip
+    else:
+        stack = stacking.RemoteStack(puid=int(p), uid=opt(u, int), name=opt(n, untok), ha=opt(h, untok))
+        Remote, hatok, haun = devicing.RemoteDevice, tok, untok
     devs = []
     ident = {}
 
     def fdev(d):
-        return "%s,%s,%s" % (d.uid, tok(d.name), tok(d.ha))
+        return "%s,%s,%s" % (d.uid, tok(d.name), hatok(d.ha))
 
-    def index(od):
-        return sep("%s:%s" % (tok(k), ident.get(id(v), "?")) for k, v in od.items())
+    def index(od, kt=tok):
+        return sep("%s:%s" % (kt(k), ident.get(id(v), "?")) for k, v in od.items())
 
     def dump():
         return "p=%s L=%s U=%s N=%s H=%s D=%s" % (stack.puid, fdev(stack.local), index(stack.uidRemotes),
-                                                  index(stack.nameRemotes), index(stack.haRemotes),
+                                                  index(stack.nameRemotes), index(stack.haRemotes, hatok),
                                                   sep((fdev(d) for d in devs), ";"))
 
     def dev(i):
@@ -69,8 +98,8 @@ def run_impl(case):
                 kw = {}
                 if w[1] != "~": kw["uid"] = int(w[1])
                 if w[2] != "~": kw["name"] = untok(w[2])
-                if w[3] != "~": kw["ha"] = untok(w[3])
-                d = devicing.RemoteDevice(stack=stack, **kw)
+                if w[3] != "~": kw["ha"] = haun(w[3])
+                d = Remote(stack=stack, **kw)
                 ident[id(d)] = len(devs)
                 devs.append(d)
                 r = "ref %d" % (len(devs) - 1)
@@ -82,7 +111,7 @@ def run_impl(case):
             elif op == "rename":
                 stack.renameRemote(dev(w[1]), untok(w[2]))
             elif op == "reha":
-                stack.rehaRemote(dev(w[1]), untok(w[2]))
+                stack.rehaRemote(dev(w[1]), haun(w[2]))
             elif op == "remove":
                 stack.removeRemote(dev(w[1]))
             elif op == "removeall":
@@ -192,16 +221,25 @@ NAMES = ["a", "b", "c", "Device2", "Device3", "Device5"]
 HAS = ["_", "x", "y", "z", "w"]
 
 
-def gen(rng, n_ops):
+HAS_IP = [c + p for c in "ezlLncotf" for p in ("1", "2", "3")] + ["n12357", "z12357"]
+
+
+def norm_ip(t):
+    return ("n" if t[0] in "ezlL" else "o" if t[0] in "cf" else t[0]) + t[1:]
+
+
+def gen(rng, n_ops, ip=False):
     """mostly valid calls: a light simulation of what is indexed steers ~70% of the calls to ones that should be
     accepted (fresh keys, un-added / added devices as appropriate); the rest is drawn blindly and mostly rejected"""
+    HASP = HAS_IP if ip else HAS
     init = [rng.choice(["0", "0", "3"]), rng.choice(["~", "~", "1", "4"]), rng.choice(["~", "~", "a"]),
-            rng.choice(["~", "~", "x"])]
+            rng.choice(["~", "~"] + (["n3", "z2", "l1"] if ip else ["x"]))]
     puid = int(init[0])
     luid = int(init[1]) if init[1] != "~" else puid + 1
     if init[1] == "~":
         puid += 1
-    loc = [str(luid), init[2] if init[2] != "~" else "Device%d" % luid, init[3] if init[3] != "~" else "_"]
+    loc = [str(luid), init[2] if init[2] != "~" else "Device%d" % luid,
+           (norm_ip(init[3]) if init[3] != "~" else "n12357") if ip else (init[3] if init[3] != "~" else "_")]
     devs, ops = [], []          # devs: [uid, name, ha, added]
 
     def used(f):
@@ -215,11 +253,11 @@ def gen(rng, n_ops):
         c = rng.randrange(20)
         if not devs or c < 4:
             if blind:
-                u, n, h = rng.choice(["~"] + UIDS), rng.choice(["~", "~"] + NAMES), rng.choice(["~"] + HAS)
+                u, n, h = rng.choice(["~"] + UIDS), rng.choice(["~", "~"] + NAMES), rng.choice(["~"] + HASP)
             else:
                 u = rng.choice(["~", "~", fresh(0, UIDS)])
                 n = rng.choice(["~", fresh(1, NAMES)])
-                h = fresh(2, HAS[1:] + ["v", "u", "t"])
+                h = fresh(2, HASP if ip else HAS[1:] + ["v", "u", "t"])
             if u == "~":
                 puid += 1
                 while str(puid) in used(0):
@@ -227,7 +265,8 @@ def gen(rng, n_ops):
                 uid = str(puid)
             else:
                 uid = u
-            devs.append([uid, n if n != "~" else "Device" + uid, h if h != "~" else "_", False])
+            devs.append([uid, n if n != "~" else "Device" + uid,
+                         (norm_ip(h) if h != "~" else "n12357") if ip else (h if h != "~" else "_"), False])
             ops.append(["create", u, n, h])
             continue
         added = [i for i, d in enumerate(devs) if d[3]]
@@ -241,7 +280,7 @@ def gen(rng, n_ops):
             ops.append(["add", str(i)])
         elif c < 16:
             f = 0 if c < 12 else 1 if c < 14 else 2
-            pool = [UIDS, NAMES, HAS + ["v", "u"]][f]
+            pool = [UIDS, NAMES, HASP if ip else HAS + ["v", "u"]][f]
             i = any_() if blind or not added else rng.choice(added)
             new = rng.choice(pool) if blind else fresh(f, pool)
             d = devs[i]
@@ -259,7 +298,7 @@ def gen(rng, n_ops):
             for d in devs:
                 d[3] = False
             ops.append(["removeall"])
-    return {"init": init, "ops": ops}
+    return {"init": init, "ops": ops, "ip": True} if ip else {"init": init, "ops": ops}
 
 
 class CHECK(core.Check):
@@ -271,8 +310,10 @@ class CHECK(core.Check):
     N_SEARCH = 4000
     RULE = ("sequences of 1..40 calls (create / add / move / rename / reha / remove / removeall) on up to ~10 RemoteDevice "
             "objects over uids 1..6, six names (incl. default-name look-alikes), five host addresses (incl. the empty default "
-            "that the local device has), stacks with given or defaulted local uid/name/ha and puid 0 or 3; bounded-exhaustive: "
-            "every sequence of <=2 (quick) / <=4 (thorough) calls from an 18-call alphabet after a 5-call prefix (two indexed remotes, one not added). non-trivial = at "
+            "that the local device has), stacks with given or defaulted local uid/name/ha and puid 0 or 3; 40% of the histories "
+            "with IpLocalDevice/IpRemoteDevice and (host, port) addresses over 9 host spellings (7 of which the normaliser "
+            "rewrites) x 3 ports + the default port; bounded-exhaustive: "
+            "every sequence of <=2 (quick) / <=4 (thorough) calls from an 18-call alphabet after a 5-call prefix (two indexed remotes, one not added), and from a 14-call Ip alphabet (re-addressing to rewritten spellings, to the local device's and another remote's address). non-trivial = at "
             "least two remotes were in the indexes at once, a move/rename/reha was accepted and some call was rejected; "
             "distinct by init + op list")
     TRUSTED = ["correspondence: a real stacking.RemoteStack (handler None) and devicing.RemoteDevice objects are driven in-process by "
@@ -284,7 +325,13 @@ class CHECK(core.Check):
     PARTIAL = ["devices changed behind the stack's back (remote.name = ..., local device fields changed later, one device "
                "in two stacks) are outside the histories considered",
                "which calls must be accepted is proved on the model (C37_accepted_iff) and tied to the code by the "
-               "correspondence; the Python oracle only constrains the result of a call; names/host addresses are opaque tokens (IP normalisation of IpDevice not modelled)"]
+               "correspondence; the Python oracle only constrains the result of a call",
+               "Ip devices: host normalisation is a function parameter of the model applied where the code applies it "
+               "(IpDevice.__init__ only; rehaRemote stores the new address as given); in the runs it is aioing.normalizeHost + "
+               "the two rewrites of IpDevice.__init__ over the hosts '', 0.0.0.0, localhost, LOCALHOST, 127.0.0.1, ::, ::1, "
+               "0:0:0:0:0:0:0:0, 10.0.0.5 (name resolution of the machine is trusted); two addresses that are equal only "
+               "after normalisation are different keys for the code and for the property as stated; the real UDP/TCP stacks "
+               "are not opened (RemoteStack with an IpLocalDevice, IpRemoteDevice objects, Port 12357)"]
     TECHNIQUE = "Lean 4 theorems (state invariant by induction over call histories) + differential correspondence"
     LEVEL_TEXT = ("Full proofs on the model (no _partial theorem): the consistency invariant (the three indexes hold the same remote "
                   "objects in the same order, each under its current uid/name/ha, no remote twice, no duplicate key, no key equal to the "
@@ -297,7 +344,8 @@ class CHECK(core.Check):
                   "accepted add appends to all three, an accepted remove takes out exactly that remote, removeAll empties them "
                   "(C37_add_remove_effect); nothing is rejected without need: add is accepted exactly when all three keys are free, "
                   "remove exactly when that object is indexed, a move exactly when the uid is free and the object indexed "
-                  "(C37_accepted_iff); an auto-assigned uid is larger than all earlier ones and not in use (C37_create_uid_fresh). "
+                  "(C37_accepted_iff); an auto-assigned uid is larger than all earlier ones and not in use, for plain and Ip remotes, whose "
+                  "address is the normalised one (C37_create_uid_fresh, C37_createIp_uid_fresh). "
                   "No defect of the unchanged tree violates C37 (removeRemote's 'not identical' branch raises NameError instead of "
                   "ValueError; still a rejection that changes nothing).")
     LEVEL_NOTE = ("Trusted: Lean kernel; axioms propext, Classical.choice, Quot.sound; the hand transcription of the seven methods "
@@ -308,7 +356,7 @@ class CHECK(core.Check):
 
     def generate(self, rng, n, tier):
         for _ in range(n):
-            yield gen(rng, rng.choice([1, 3, 6, 10, 15, 25, 40]))
+            yield gen(rng, rng.choice([1, 3, 6, 10, 15, 25, 40]), ip=rng.random() < 0.4)
 
     def exhaustive(self, tier):
         depth = 4 if tier == "thorough" else 2
@@ -323,8 +371,20 @@ class CHECK(core.Check):
         for d in range(1, depth + 1):
             for seq in itertools.product(alpha, repeat=d):
                 yield {"init": ["0", "~", "~", "~"], "ops": pre + [list(x) for x in seq]}
+        # Ip devices: re-addressing to hosts the normaliser of IpDevice.__init__ rewrites, to the local device's
+        # address in another spelling, to another remote's; creation with such spellings; removal afterwards
+        prei = [["create", "~", "~", "n1"], ["create", "~", "b", "z2"], ["add", "0"], ["add", "1"]]
+        alphai = [["reha", "0", "z1"], ["reha", "0", "l2"], ["reha", "1", "e1"], ["reha", "0", "z9"], ["reha", "0", "n3"],
+                  ["reha", "1", "c1"], ["reha", "0", "L12357"], ["create", "~", "~", "L1"], ["create", "~", "~", "~"],
+                  ["create", "~", "c", "e9"], ["add", "2"], ["remove", "0"], ["remove", "1"], ["removeall"]]
+        for d in range(1, depth + 1):
+            for seq in itertools.product(alphai, repeat=d):
+                yield {"init": ["0", "~", "~", "l9"], "ops": prei + [list(x) for x in seq], "ip": True}
 
     def requests(self, case):
+        if case.get("ip"):
+            return ["initip " + " ".join(case["init"])] + [" ".join(["createip"] + w[1:] if w[0] == "create" else w)
+                                                           for w in case["ops"]]
         return ["init " + " ".join(case["init"])] + [" ".join(w) for w in case["ops"]]
 
     def impl(self, case):
@@ -349,16 +409,17 @@ class CHECK(core.Check):
         n = len(case["ops"])
         rej = sum(1 for l in out[1:] if l.startswith("REJECTED"))
         most = max([len(parse(l)[1]["U"]) for l in out if l != "bad-op"] or [0])
-        return "%s/%s/max-indexed=%s" % ("len<=6" if n <= 6 else "len7-15" if n <= 15 else "len16+",
+        return "%s%s/%s/max-indexed=%s" % ("ip/" if case.get("ip") else "", "len<=6" if n <= 6 else "len7-15" if n <= 15 else "len16+",
                                          "no-reject" if rej == 0 else "rejects<=33%" if rej * 3 <= n else "rejects>33%",
                                          most if most < 3 else "3+")
 
     def shrink_candidates(self, case):
         ops = case["ops"]
+        extra = {"ip": True} if case.get("ip") else {}
         for k in range(1, len(ops)):
-            yield {"init": case["init"], "ops": ops[:k]}
+            yield dict(extra, init=case["init"], ops=ops[:k])
         for i in range(len(ops)):
             if ops[i][0] != "create":
-                yield {"init": case["init"], "ops": ops[:i] + ops[i + 1:]}
+                yield dict(extra, init=case["init"], ops=ops[:i] + ops[i + 1:])
         if case["init"] != ["0", "~", "~", "~"]:
-            yield {"init": ["0", "~", "~", "~"], "ops": ops}
+            yield dict(extra, init=["0", "~", "~", "~"], ops=ops)
